@@ -71,6 +71,8 @@ type backend struct {
 	name   string
 	client kv.Client
 	closer func()
+	// the secondary store of a mirroring multi client, read directly (same prefix) at the end of a history
+	secondary kv.Client
 }
 
 var inmemOnce sync.Once
@@ -151,6 +153,17 @@ func mkBackend(kind, wrapper string, uniq string) (*backend, error) {
 			return nil, err
 		}
 		b.client = c
+		if wrapper == "multi-mirror" {
+			if kind == "consul" {
+				b.secondary = kv.PrefixClient(mnet.Client(0, codec), cfg.Prefix)
+			} else {
+				sc, err := kv.NewClient(kv.Config{Store: "inmemory", Prefix: cfg.Prefix}, codec, prometheus.NewRegistry(), logger)
+				if err != nil {
+					return nil, err
+				}
+				b.secondary = sc
+			}
+		}
 	default:
 		return nil, fmt.Errorf("unknown wrapper %s", wrapper)
 	}
@@ -251,7 +264,7 @@ func runHistory(run *vt.Run, c vt.CaseID, rng *rand.Rand, kind, wrapper string) 
 			for n := 0; n < hc.OpsEach; n++ {
 				key := keys[r.IntN(len(keys))]
 				rec := opRec{Caller: caller, Key: key}
-				kindOp := []string{"inc", "inc", "append", "append", "decline", "fail", "fail-retry", "get"}[r.IntN(8)]
+				kindOp := []string{"inc", "inc", "append", "append", "decline", "fail", "fail-retry", "get", "append-if-even"}[r.IntN(9)]
 				rec.Kind = kindOp
 				if kindOp == "get" {
 					rec.Call = clock.Add(1)
@@ -283,13 +296,18 @@ func runHistory(run *vt.Run, c vt.CaseID, rng *rand.Rand, kind, wrapper string) 
 							}
 						}
 						d := ring.GetOrCreateRingDesc(in)
+						if kindOp == "append-if-even" && len(d.Ingesters)%2 != 0 {
+							// the decision depends on the value read: an attempt that wanted to write and lost
+							// the race may decline on the retry
+							return nil, false, nil
+						}
 						e := d.Ingesters["ctr"]
 						switch kindOp {
 						case "inc", "fail-retry":
 							e.Id, e.Addr, e.State = "ctr", "ctr", ring.ACTIVE
 							e.Timestamp++
 							d.Ingesters["ctr"] = e
-						case "append":
+						case "append", "append-if-even":
 							d.Ingesters[appendID] = ring.InstanceDesc{Id: appendID, Addr: appendID, Timestamp: 1, State: ring.ACTIVE, Tokens: []uint32{uint32(caller*1000 + n)}}
 							rec.Appended = appendID
 						}
@@ -314,6 +332,48 @@ func runHistory(run *vt.Run, c vt.CaseID, rng *rand.Rand, kind, wrapper string) 
 		finals[k] = canon(v)
 	}
 	judge(run, c, hc, keys, initial, finals, ops)
+	// the mirrored secondary only ever receives what a successful call wrote to the primary. It may lag behind, and
+	// mirror writes of different callers may land in either order: an overwriting secondary (in-memory store) then
+	// holds some successful output; a merging secondary (gossip store, where a write also removes the entries it
+	// lacks) may hold a mix of two of them. In both cases every element it holds was appended by a successful
+	// call, and its counter never exceeds the primary's.
+	if b.secondary != nil {
+		for _, k := range keys {
+			v, err := b.secondary.Get(ctx, k)
+			if err != nil {
+				continue
+			}
+			sv := canon(v)
+			exact := sv == initial[k] || sv == "<nil>"
+			okIDs := map[string]bool{}
+			for _, o := range ops {
+				if o.Key == k && o.success() {
+					if o.Attempts[len(o.Attempts)-1].Out == sv {
+						exact = true
+					}
+					if o.Appended != "" {
+						okIDs[o.Appended] = true
+					}
+				}
+			}
+			run.Count("secondary_values_checked", 1)
+			det := map[string]any{"case": hc, "key": k, "primary_final": finals[k], "secondary": sv}
+			sig := strings.Split(hc.Backend, "/")[0] + "/multi/"
+			if d, _ := v.(*ring.Desc); d != nil {
+				for id, e := range d.Ingesters {
+					if id != "ctr" && e.State != ring.LEFT && !okIDs[id] {
+						run.Violation(c, sig+"secondary-holds-element-no-successful-call-wrote", fmt.Sprintf("the mirrored secondary store holds element %s, which no successful CAS appended", id), det)
+					}
+				}
+				if pf, _ := b.client.Get(ctx, k); pf != nil && d.Ingesters["ctr"].Timestamp > pf.(*ring.Desc).Ingesters["ctr"].Timestamp {
+					run.Violation(c, sig+"secondary-ahead-of-primary", "the mirrored secondary store holds a counter the primary never reached", det)
+				}
+			}
+			if !exact && kind == "memberlist" { // secondary = overwriting in-memory store
+				run.Violation(c, sig+"secondary-holds-value-no-successful-call-wrote", fmt.Sprintf("the mirrored secondary store holds %q, which is neither the initial value nor the output of a successful CAS", sv), det)
+			}
+		}
+	}
 }
 
 func judge(run *vt.Run, c vt.CaseID, hc histCase, keys []string, initial, finals map[string]string, ops []opRec) {
@@ -414,7 +474,7 @@ func judge(run *vt.Run, c vt.CaseID, hc histCase, keys []string, initial, finals
 
 func TestC07(t *testing.T) {
 	run := vt.NewRun("C07", "exploration")
-	run.SetRule("case = one history of 2-16 concurrent callers x 1-12 (thorough 50) operations on 1-3 keys against one backend/wrapper combination (in-memory Consul store, etcd client on its in-process mock, gossip store on one node; bare, prefix wrapper, metrics+prefix through the public constructor, multi-client with mirroring on and off in both primary/secondary arrangements), functions: increment, append a unique element, decline, fail without retry, fail with bounded retry, plus Get; in half of the histories callers are held inside f on a barrier until several have read the same version; keys pre-created or absent. Every call is recorded at the client boundary (attempt inputs/outputs, error, logical call/return times) and decided by (1) porcupine against a register model, (2) a chain check over unique values (no two successes on one input, successes form a chain from the initial value, final Get = end of the chain), under the race detector. non-trivial = more than one successful CAS on the key; distinct by history parameters; distinct final values counted.")
+	run.SetRule("case = one history of 2-16 concurrent callers x 1-12 (thorough 50) operations on 1-3 keys against one backend/wrapper combination (in-memory Consul store, etcd client on its in-process mock, gossip store on one node; bare, prefix wrapper, metrics+prefix through the public constructor, multi-client with mirroring on and off in both primary/secondary arrangements), functions: increment, append a unique element, append only if the value read has an even number of entries (else decline), decline, fail without retry, fail with bounded retry, plus Get; in half of the histories callers are held inside f on a barrier until several have read the same version; keys pre-created or absent. Every call is recorded at the client boundary (attempt inputs/outputs, error, logical call/return times) and decided by (1) porcupine against a register model, (2) a chain check over unique values (no two successes on one input, successes form a chain from the initial value, final Get = end of the chain), (3) for mirroring multi clients the secondary store, read directly at the end, holds only elements appended by successful calls and no counter beyond the primary's (an overwriting secondary: exactly the initial value or the output of a successful call); all under the race detector. non-trivial = more than one successful CAS on the key; distinct by history parameters; distinct final values counted.")
 	// the process-wide in-memory store must be created outside of any history
 	if _, err := kv.NewClient(kv.Config{Store: "inmemory"}, ring.GetCodec(), nil, log.NewNopLogger()); err != nil {
 		t.Fatal(err)
